@@ -720,8 +720,121 @@ def replay_lifecycle_search(p):
                     break
             if problems:
                 break
+    if not problems:
+        problems = _confusable_text_search()
     return {"reproduced": bool(problems), "expected": "every history conforms to the model", "observed": problems[0] if problems else
-            "no misbehaving history up to %d recompiles (one evaluator) / 3 operations on two evaluators" % max_len}
+            "no misbehaving history up to %d recompiles (one evaluator) / 3 operations on two evaluators / confusable-text "
+            "round trips" % max_len}
+
+
+def confusable_texts():
+    """Texts that a lossy notion of 'same source' (whitespace folding, case folding, Unicode normalisation, comparing
+    parsed trees or token values with ==, stripping comments by hand ...) would confuse although they are different
+    programs, or one of them is not a program at all; plus a few that really are the same program."""
+    def prog(name="exp_a", salt='salt: "wave 2"', body='return 0 weighted 9, 1 weighted 1', pre="", post="", nl="\n"):
+        return nl.join(["%sdef %s {" % (pre, name), " " + salt, " splitters: uid", " " + body, "}%s" % post])
+    out = {
+        "base": prog(),
+        "float-labels": prog(body='return 0.0 weighted 9, 1.0 weighted 1'),
+        "float-weights": prog(body='return 0 weighted 9.0, 1 weighted 1.0'),
+        "str-labels": prog(body='return "0" weighted 9, "1" weighted 1'),
+        "neg-zero": prog(body='return -0 weighted 9, 1 weighted 1'),
+        "neg-zero-float": prog(body='return -0.0 weighted 9, 1 weighted 1'),
+        "lead-zero": prog(body='return 00 weighted 9, 01 weighted 1'),
+        "salt-2sp": prog(salt='salt: "wave  2"'),
+        "salt-tab": prog(salt='salt: "wave\t2"'),
+        "salt-lead-sp": prog(salt='salt: " wave 2"'),
+        "salt-trail-sp": prog(salt='salt: "wave 2 "'),
+        "salt-case": prog(salt='salt: "Wave 2"'),
+        "salt-single-quote": prog(salt="salt: 'wave 2'"),
+        "salt-nfc": prog(salt='salt: "caf\u00e9"'),
+        "salt-nfd": prog(salt='salt: "cafe\u0301"'),
+        "salt-commented": prog(salt='// salt: "wave 2"'),
+        "salt-comment-split": prog(salt='//\n salt: "wave 2"'),
+        "salt-block-commented": prog(salt='/* salt: "wave 2" */'),
+        "no-salt": prog(salt=''),
+        "label-2sp": prog(body='return "Setting 1" weighted 9, "Setting  1" weighted 1'),
+        "label-1sp": prog(body='return "Setting 1" weighted 9, "Setting 1" weighted 1'),
+        "label-case": prog(body='return "a" weighted 9, "A" weighted 1'),
+        "label-case2": prog(body='return "A" weighted 9, "a" weighted 1'),
+        "swapped-weights": prog(body='return 0 weighted 1, 1 weighted 9'),
+        "cond-int": prog(body='if uid in (1, 2) { return 0 weighted 1 } else { return 1 weighted 1 }'),
+        "cond-float": prog(body='if uid in (1.5, 2) { return 0 weighted 1 } else { return 1 weighted 1 }'),
+        "cond-str": prog(body='if uid in ("1", "2") { return 0 weighted 1 } else { return 1 weighted 1 }'),
+        "crlf": prog(nl="\r\n"),
+        "trailing-newline": prog(post="\n"),
+        "leading-comment": prog(pre="// v2\n"),
+        "other-name": prog(name="exp_b"),
+        "name-case": prog(name="EXP_A"),
+        # not programs
+        "bad-newline-in-string": prog(salt='salt: "wave\n2"'),
+        "bad-open-comment": prog(post="\n/* trailing"),
+        "bad-trailing-token": prog(post=" x"),
+        "bad-missing-colon": prog(salt='salt "wave 2"'),
+        "bad-empty": "",
+        "bad-blank": " \n",
+        "bad-comment-eats-brace": prog()[:-1] + "// }",
+    }
+    return out
+
+
+def _confusable_text_search():
+    import contextlib
+    import io
+    from pyab_experiment.experiment_evaluator import ExperimentEvaluator
+    texts = confusable_texts()
+    ids = ["u%d" % i for i in range(24)] + [1, 2, 1.5, "1", 7]
+    quiet = lambda: contextlib.redirect_stdout(io.StringIO())
+
+    def show(v):
+        return (type(v).__name__, repr(v))
+
+    def behaviour(ev):
+        out = []
+        for i in ids:
+            try:
+                out.append(show(ev(uid=i)))
+            except Exception as e:
+                out.append(("raised", type(e).__name__))
+        return out
+    fresh = {}
+    for k, t in texts.items():
+        try:
+            with quiet():
+                fresh[k] = behaviour(ExperimentEvaluator(t))
+        except Exception:
+            fresh[k] = None
+    valid = [k for k in texts if fresh[k] is not None]
+    problems = []
+    for x in valid:
+        for y in texts:
+            if y == x:
+                continue
+            with quiet():
+                ev = ExperimentEvaluator(texts[x])
+            accepted = x
+            trail = ["new(%s)" % x]
+            bad = None
+            for name in (y, y, x, y):
+                trail.append("recompile(%s)" % name)
+                try:
+                    with quiet():
+                        ev.recompile(texts[name])
+                    if fresh[name] is None:
+                        bad = "recompile(%s) returned without raising although a fresh evaluator rejects that text" % name
+                        break
+                    accepted = name
+                except Exception:
+                    if fresh[name] is not None:
+                        bad = "recompile(%s) raised on a text a fresh evaluator accepts" % name
+                        break
+                if behaviour(ev) != fresh[accepted]:
+                    bad = "behaves unlike a fresh evaluator of %s (values compared with their types)" % accepted
+                    break
+            if bad:
+                problems.append(" -> ".join(trail) + ": " + bad)
+                return problems
+    return problems
 
 
 @register("same_print_history")
